@@ -27,7 +27,7 @@ PROPS = {
         "level": "proof",
         "lean": ["PasfmtModel.Props.C02"],
         "streams": [
-            {"stream": "fmt", "families": "seeds_sample,grammar,layout,regions,mlsfam,marked", "quick": 7500, "thorough": 50000,
+            {"stream": "fmt", "families": "seeds_sample,grammar,layout,regions,mlsfam,marked,opgap", "quick": 8750, "thorough": 50000,
              "binding": ["prec", "rx", "out", "*"], "args": {"oracles": "c02"}},
         ],
         "oracle_prefixes": ["c02", "glue"],
@@ -132,11 +132,11 @@ PROPS = {
         "level": "other",
         "lean": ["PasfmtModel.Props.C04"],
         "streams": [
-            {"stream": "fmt", "families": "soup,bytes,mutate,directives,dirsoup,seeds_sample,layout,deepnest,lexfam,nosol", "quick": 10500, "thorough": 80000,
+            {"stream": "fmt", "families": "soup,bytes,mutate,directives,dirsoup,seeds_sample,layout,deepnest,lexfam,nosol,unclosed", "quick": 10500, "thorough": 80000,
              "binding": ["*"], "args": {"oracles": "c15,c04", "timeout_ms": 20000}},
             {"stream": "parse", "families": "soup,bytes,mutate,directives,dirsoup,layout", "quick": 7500, "thorough": 40000, "name": "counters"},
             # the total, fuel-bounded Lean model of the whole parser answers (never `model-none`: no panic site reached, fuel 200*(n+10) not exhausted) and agrees
-            {"stream": "pfull", "name": "parser", "families": "soup,bytes,mutate,dirsoup,deepnest", "quick": 10000, "thorough": 40000, "binding": ["pk", "pl", "*"]},
+            {"stream": "pfull", "name": "parser", "families": "soup,bytes,mutate,dirsoup,deepnest,unclosed", "quick": 12000, "thorough": 40000, "binding": ["pk", "pl", "*"]},
             # the closed, total model of the whole formatter answers (never `model-none`) and agrees, on ill-formed input too
             {"stream": "full", "name": "whole", "families": "soup,bytes,mutate,dirsoup,lexfam,nosol", "quick": 6000, "thorough": 40000, "binding": ["out", "*"]},
             {"stream": "fmt", "name": "enum", "families": "soup_enum", "quick": 7500, "thorough": 1010100, "multi_seed": False,
